@@ -402,6 +402,9 @@ class SDict(Sym):
         return v
 
     def get(self, k, default=None):
+        if default is None and getattr(self.heap.th, 'merge_get', False):
+            # opt-in (theory flag): d.get(k) without forking - an absent key and a stored None are the same observable result
+            return SVal(self.heap, z3.If(self.has(k), self.value(k), self.heap.th.Val.vnone))
         if cur().branch(self.has(k)):
             return SVal(self.heap, self.value(k))
         return default
@@ -678,6 +681,9 @@ class SEdgeData(Sym):
 
     def get(self, k, default=None):
         return self[k] if k in self else default
+
+    def copy(self):
+        return SEdgeData(self.t)
 
     __hash__ = Sym.__hash__
 
